@@ -12,7 +12,8 @@ from props import c01, c10
 
 ID = "C16"
 RULE = ("sequences of writes (modes a / w / unrecognised) of overlapping nested dicts (kind-consistent, value domain of C01) to one "
-        "target, per format native / foam / json; after every write DictReader.read(target) is compared with the fold "
+        "target, per format native / foam / json, the written object being a plain dict, a fresh SDict, or an SDict read / loaded "
+        "from the target itself whose content was replaced (DictWriter.write and SDict.dump()); after every write DictReader.read(target) is compared with the fold "
         "stepW(None,(m,d)) = norm d, stepW(e,('a',d)) = merge(e, norm d), stepW(e,(other,d)) = norm d; for native and foam the bytes "
         "of the file after every write are compared with the Lean model writeStep; non-trivial = sequence with an append onto "
         "an existing file")
@@ -49,6 +50,21 @@ def fold(seq, foam=False):
     return out
 
 
+def _source_object(via: str, d: dict, target):
+    """the object handed to the writer: a plain dict, a fresh SDict, or an SDict that knows the target as its own source
+    file (read or loaded from it earlier, content replaced since) -- the written content is `d` in every case"""
+    from dictIO import DictReader, SDict
+    if via == "dict":
+        return d
+    if via == "sdict" or not target.exists():
+        return SDict(d)
+    s = DictReader.read(target) if via == "reread" else SDict().load(target)
+    for k in list(s):
+        del s[k]
+    s.update(d)
+    return s
+
+
 def process(ctx: Ctx, cases: list[dict]) -> None:
     from dictIO import DictReader, DictWriter
     pending = []      # (case, step, request, expected text)
@@ -63,7 +79,13 @@ def process(ctx: Ctx, cases: list[dict]) -> None:
                 target = td / ("t" + {"native": "", "foam": ".foam", "json": ".json"}[fmt])
                 for step, (mode, d) in enumerate(seq):
                     reset_globals()
-                    DictWriter.write(copy.deepcopy(d), target, mode=mode)
+                    via = (c.get("via") or [])[step] if step < len(c.get("via") or []) else "dict"
+                    src = _source_object(via, copy.deepcopy(d), target)
+                    if via == "dump" and mode == "a":
+                        # SDict.dump() onto its own source file (append is the default)
+                        src.dump() if getattr(src, "source_file", None) is not None else src.dump(target)
+                    else:
+                        DictWriter.write(src, target, mode=mode)
                     if fmt != "json":
                         texts.append(target.read_text())
                     reset_globals()
@@ -83,6 +105,8 @@ def process(ctx: Ctx, cases: list[dict]) -> None:
         for step, (mode, d) in enumerate(seq):
             if step >= len(texts):
                 break
+            if ((c.get("via") or ["dict"] * len(seq))[step]) != "dict":
+                continue        # an SDict is written with its header and comment tables: bytes compared for plain dicts only
             pending.append((c, step, {"op": "write_step", "fl": fmt, "existing": texts[step - 1] if step else None, "mode": mode,
                                       "e": enc_entries(d), "start": -1}, texts[step]))
     if pending:
@@ -103,7 +127,8 @@ def canon_model_floats(d):
 
 def gen_case(rng, fmt, n=None):
     n = n or rng.randint(1, 6)
-    return {"kind": "seq", "fmt": fmt, "seq": [[rng.choice(["a", "a", "w", "x", "", "A"]), enc(gen_d(rng, f"W{i}"))] for i in range(n)]}
+    return {"kind": "seq", "fmt": fmt, "seq": [[rng.choice(["a", "a", "w", "x", "", "A"]), enc(gen_d(rng, f"W{i}"))] for i in range(n)],
+            "via": [rng.choice(["dict", "dict", "sdict", "reread", "load", "dump"]) for _ in range(n)]}
 
 
 def run(ctx: Ctx) -> None:
